@@ -322,78 +322,131 @@ func c05Plumbing(c *Ctx, r *Report) {
 }
 
 // c05Split: R5.3 / R6.1 / R6.3 constructor table on split.
+// split (with any helper of its own package that calls the packet constructors inlined) is
+// interpreted; every packet constructor call is compared, by identity of the abstract values,
+// with what is stored into the BuilderRequest literal that split appends.
 func c05Split(c *Ctx, r *Report, rule string) {
 	split := c.fnMust("", "split")
 	id := fnID(split)
 	r.funcs[id] = true
-	// constructor calls
-	type ctorCall struct {
-		call *ssa.Call
-		args []string
+	an := &Analysis{ctx: c, u: newUniverse(), top: split, logCalls: true}
+	an.noInline = func(f *ssa.Function) bool { return !splitHelper(split, f) }
+	fr := an.newFrame(split, nil, nil)
+	fr.run(dnfTrue())
+	var ctors []*CallRec
+	for _, cr := range an.calls {
+		if cr.callee != nil && isPacketCtor(cr.callee) {
+			ctors = append(ctors, cr)
+		}
 	}
-	var ctors []ctorCall
-	var lit *ssa.Alloc
-	for _, b := range split.Blocks {
-		for _, in := range b.Instrs {
-			if call, ok := in.(*ssa.Call); ok {
-				if sc := call.Common().StaticCallee(); sc != nil && sc.Pkg != nil && strings.HasSuffix(sc.Pkg.Pkg.Path(), "/packet") && strings.HasPrefix(sc.Name(), "New") {
-					var as []string
-					for _, a := range call.Common().Args {
-						as = append(as, accessPath(a))
-					}
-					ctors = append(ctors, ctorCall{call, as})
-				}
-			}
-			if al, ok := in.(*ssa.Alloc); ok {
-				if n, ok := deref(al.Type()).(*types.Named); ok && n.Obj().Name() == "BuilderRequest" && !al.Heap {
-					lit = al
-				}
-			}
+	// the BuilderRequest literal: a non-escaping local of split
+	var lit *Obj
+	for al, o := range fr.objs {
+		if n, ok := deref(al.Type()).(*types.Named); ok && n.Obj().Name() == "BuilderRequest" && !al.Heap {
+			lit = o
 		}
 	}
 	if lit == nil || len(ctors) == 0 {
 		r.undecided(rule, id, "split does not build BuilderRequest values from packet constructors", c.pos(split.Pos()))
 		return
 	}
-	// stores into the literal
+	st := lit.typ.Underlying().(*types.Struct)
 	stored := map[string]string{}
-	if refs := lit.Referrers(); refs != nil {
-		for _, rf := range *refs {
-			fa, ok := rf.(*ssa.FieldAddr)
-			if !ok {
-				continue
+	for path, recs := range lit.stores {
+		var n int
+		if _, err := fmt.Sscanf(strings.TrimPrefix(path, "."), "%d", &n); err != nil || n >= st.NumFields() || len(recs) == 0 {
+			continue
+		}
+		last := recs[0]
+		for _, rc := range recs {
+			if rc.seq > last.seq {
+				last = rc
 			}
-			st := deref(fa.X.Type()).Underlying().(*types.Struct)
-			if r2 := fa.Referrers(); r2 != nil {
-				for _, u := range *r2 {
-					if s, ok := u.(*ssa.Store); ok && s.Addr == fa {
-						stored[st.Field(fa.Field).Name()] = accessPath(s.Val)
-					}
+		}
+		stored[st.Field(n).Name()] = describeAV(last.val)
+	}
+	base := func(desc string) string {
+		if k := strings.LastIndex(desc, "."); k >= 0 {
+			return desc[:k]
+		}
+		return desc
+	}
+	seen := map[*ssa.Function]bool{}
+	for _, cc := range ctors {
+		if seen[cc.callee] {
+			continue
+		}
+		seen[cc.callee] = true
+		r.instance(rule, 1)
+		pos := posOfCall(c, cc)
+		if len(cc.args) != 3 {
+			r.fail(rule, id, "constructor call does not take (unit id, start, quantity)", pos, describeAV(ATuple(cc.args)), "ctor-arity")
+			continue
+		}
+		u, s0, q := describeAV(cc.args[0]), describeAV(cc.args[1]), describeAV(cc.args[2])
+		b := base(u)
+		okU := stored["UnitID"] == u
+		okS := stored["StartAddress"] == s0
+		okQ := base(q) == b && q != u && q != s0
+		okF := strings.Contains(stored["Fields"], b+".") // a slice field of the same batch value
+		okA := strings.Contains(stored["ServerAddress"], b+".")
+		if okU && okS && okQ && okF && okA && base(s0) == b {
+			r.ok(rule, id, fmt.Sprintf("%s gets unit id, start and quantity of one batch; the descriptor stores the same unit id and start address and that batch's fields and address", cc.callee.Name()), pos, true)
+		} else {
+			r.fail(rule, id, "request descriptor and encoded packet can disagree", pos,
+				fmt.Sprintf("ctor args (%s, %s, %s); descriptor UnitID=%s StartAddress=%s Fields=%s ServerAddress=%s", u, s0, q, stored["UnitID"], stored["StartAddress"], stored["Fields"], stored["ServerAddress"]),
+				fmt.Sprintf("descriptor:%v%v%v%v%v", okU, okS, okQ, okF, okA))
+		}
+	}
+}
+
+func isPacketCtor(f *ssa.Function) bool {
+	return f != nil && f.Pkg != nil && strings.HasSuffix(f.Pkg.Pkg.Path(), "/packet") && strings.HasPrefix(f.Name(), "New")
+}
+
+// splitHelper: f is split itself or a function of split's package that split calls and that
+// calls a packet constructor (a helper the constructor switch was moved into).
+func splitHelper(split, f *ssa.Function) bool {
+	if f == split {
+		return true
+	}
+	if f == nil || f.Pkg != split.Pkg || f.Blocks == nil {
+		return false
+	}
+	for _, b := range f.Blocks {
+		for _, in := range b.Instrs {
+			if call, ok := in.(ssa.CallInstruction); ok && isPacketCtor(call.Common().StaticCallee()) {
+				return true
+			}
+		}
+	}
+	return false
+}
+
+// packetCtorsOfSplit: the packet constructors called from split or its helpers.
+func packetCtorsOfSplit(split *ssa.Function) []*ssa.Function {
+	var out []*ssa.Function
+	seen := map[*ssa.Function]bool{}
+	var scan func(f *ssa.Function, depth int)
+	scan = func(f *ssa.Function, depth int) {
+		for _, b := range f.Blocks {
+			for _, in := range b.Instrs {
+				call, ok := in.(ssa.CallInstruction)
+				if !ok {
+					continue
+				}
+				sc := call.Common().StaticCallee()
+				if isPacketCtor(sc) && !seen[sc] {
+					seen[sc] = true
+					out = append(out, sc)
+				} else if depth < 2 && sc != f && splitHelper(split, sc) && sc != split {
+					scan(sc, depth+1)
 				}
 			}
 		}
 	}
-	for _, cc := range ctors {
-		r.instance(rule, 1)
-		pos := c.pos(cc.call.Pos())
-		if len(cc.args) != 3 {
-			r.fail(rule, id, "constructor call does not take (unit id, start, quantity)", pos, strings.Join(cc.args, ", "), "ctor-arity")
-			continue
-		}
-		okU := strings.HasSuffix(cc.args[0], ".UnitID") && stored["UnitID"] == cc.args[0]
-		okS := strings.HasSuffix(cc.args[1], ".StartAddress") && stored["StartAddress"] == cc.args[1]
-		okQ := strings.HasSuffix(cc.args[2], ".Quantity")
-		base := strings.TrimSuffix(cc.args[0], ".UnitID")
-		okF := stored["Fields"] == base+".fields"
-		okA := stored["ServerAddress"] == base+".Address"
-		if okU && okS && okQ && okF && okA {
-			r.ok(rule, id, fmt.Sprintf("%s gets the batch's (UnitID, StartAddress, Quantity); the descriptor stores the same UnitID/StartAddress, the batch's fields and address", cc.call.Common().StaticCallee().Name()), pos, true)
-		} else {
-			r.fail(rule, id, "request descriptor and encoded packet can disagree", pos,
-				fmt.Sprintf("ctor args %v; descriptor UnitID=%s StartAddress=%s Fields=%s ServerAddress=%s", cc.args, stored["UnitID"], stored["StartAddress"], stored["Fields"], stored["ServerAddress"]),
-				fmt.Sprintf("descriptor:%v%v%v%v%v", okU, okS, okQ, okF, okA))
-		}
-	}
+	scan(split, 0)
+	return out
 }
 
 // c05Loops: R5.4.
@@ -625,15 +678,11 @@ func checkC06(c *Ctx, r *Report) {
 		crc := c.fnMust("packet", "CRC16")
 		built := map[*types.Named]bool{}
 		split := c.fnMust("", "split")
-		for _, b := range split.Blocks {
-			for _, in := range b.Instrs {
-				if call, ok := in.(*ssa.Call); ok {
-					if sc := call.Common().StaticCallee(); sc != nil && sc.Pkg != nil && strings.HasSuffix(sc.Pkg.Pkg.Path(), "/packet") && sc.Signature.Results().Len() == 2 {
-						if p, ok := sc.Signature.Results().At(0).Type().(*types.Pointer); ok {
-							if tn, ok := p.Elem().(*types.Named); ok {
-								built[tn] = true
-							}
-						}
+		for _, sc := range packetCtorsOfSplit(split) {
+			if sc.Signature.Results().Len() == 2 {
+				if p, ok := sc.Signature.Results().At(0).Type().(*types.Pointer); ok {
+					if tn, ok := p.Elem().(*types.Named); ok {
+						built[tn] = true
 					}
 				}
 			}
@@ -705,7 +754,9 @@ func c06ErrCheck(c *Ctx, r *Report) {
 		}
 		if iff, isIf := id2.Instrs[len(id2.Instrs)-1].(*ssa.If); isIf && id2.Succs[1] == b {
 			if cmp, isCmp := iff.Cond.(*ssa.BinOp); isCmp && cmp.Op == token.NEQ && isNilConst(cmp.Y) {
-				if ph, isPhi := cmp.X.(*ssa.Phi); isPhi && ph.Comment == "err" {
+				// the tested value is the error result of the packet constructors (directly, through
+				// the phi of the constructor switch, or through a helper the switch was moved into)
+				if errFromCtor(split, cmp.X, 0) {
 					// true branch returns
 					if _, isRet := id2.Succs[0].Instrs[len(id2.Succs[0].Instrs)-1].(*ssa.Return); isRet {
 						ok = true
@@ -974,7 +1025,7 @@ func c06KindFilter(c *Ctx, r *Report) {
 	sid := fnID(split)
 	for k := int64(0); k < 8; k++ {
 		an := &Analysis{ctx: c, u: newUniverse(), top: split, logCalls: true}
-		an.noInline = func(f *ssa.Function) bool { return true }
+		an.noInline = func(f *ssa.Function) bool { return !splitHelper(split, f) }
 		sf := an.newFrame(split, nil, nil)
 		ft, _ := sf.vals[split.Params[1]].(AInt)
 		sf.run(DNF{Conj{atomEQ(ft.a, affConst(k))}})
@@ -984,10 +1035,10 @@ func c06KindFilter(c *Ctx, r *Report) {
 		var onlyArg AV
 		var onlyState DNF
 		for _, cr := range an.calls {
-			if cr.frame != sf || cr.callee == nil || len(cr.state) == 0 {
+			if cr.callee == nil || len(cr.state) == 0 {
 				continue
 			}
-			if cr.callee.Pkg != nil && strings.HasSuffix(cr.callee.Pkg.Pkg.Path(), "/packet") && strings.HasPrefix(cr.callee.Name(), "New") {
+			if isPacketCtor(cr.callee) {
 				ctor = cr.callee
 				n++
 			}
@@ -1109,14 +1160,9 @@ func c06Wrap(c *Ctx, r *Report) {
 func c05FullRange(c *Ctx, r *Report, rule string) {
 	split := c.fnMust("", "split")
 	seen := map[*ssa.Function]bool{}
-	for _, b := range split.Blocks {
-		for _, in := range b.Instrs {
-			call, ok := in.(*ssa.Call)
-			if !ok {
-				continue
-			}
-			ctor := call.Common().StaticCallee()
-			if ctor == nil || ctor.Pkg == nil || !strings.HasSuffix(ctor.Pkg.Pkg.Path(), "/packet") || !strings.HasPrefix(ctor.Name(), "New") || seen[ctor] {
+	{
+		for _, ctor := range packetCtorsOfSplit(split) {
+			if seen[ctor] {
 				continue
 			}
 			seen[ctor] = true
@@ -1196,6 +1242,35 @@ func valueDerivesFrom(v ssa.Value, al *ssa.Alloc, depth int) bool {
 		return valueDerivesFrom(x.X, al, depth+1)
 	case *ssa.MakeInterface:
 		return valueDerivesFrom(x.X, al, depth+1)
+	}
+	return false
+}
+
+// errFromCtor: v is the error result of a packet constructor call (or of a split helper that
+// calls them), possibly merged by phis; a nil constant edge (the zero value of `var err error`
+// on a path without a constructor) is allowed.
+func errFromCtor(split *ssa.Function, v ssa.Value, depth int) bool {
+	if depth > 4 {
+		return false
+	}
+	switch x := v.(type) {
+	case *ssa.Extract:
+		if call, ok := x.Tuple.(*ssa.Call); ok && isErrorType(x.Type()) {
+			sc := call.Common().StaticCallee()
+			return isPacketCtor(sc) || (sc != split && splitHelper(split, sc))
+		}
+	case *ssa.Phi:
+		n := 0
+		for _, e := range x.Edges {
+			if isNilConst(e) {
+				continue
+			}
+			if !errFromCtor(split, e, depth+1) {
+				return false
+			}
+			n++
+		}
+		return n > 0
 	}
 	return false
 }
